@@ -40,6 +40,9 @@ CONTENT_SHAPES = [
     [("application/xml", REF_ERR), ("text/html", {"type": "string"})],
     [("image/png", None), ("application/json", REF_ERR)],
     [("application/vnd.api+json", REF_PET), ("text/csv", {"type": "string"})],
+    [("application/octet-stream", REF_ERR)],
+    [("application/problem+json", REF_ERR), ("text/plain", {"type": "string"})],
+    [("application/atom+xml", REF_PET), ("application/json", REF_PET)],
 ]
 
 
@@ -129,10 +132,10 @@ def check_eval(expr, ct):
         pos[0] += 1
         op = toks[pos[0]]
         pos[0] += 1
-        if op in ("CContains", "CStarts", "CEnds"):
+        if op in ("CContains", "CStarts", "CEnds", "CEq"):
             s = toks[pos[0]][1:-1]
             pos[0] += 1
-            r = {"CContains": s in ct, "CStarts": ct.startswith(s), "CEnds": ct.endswith(s)}[op]
+            r = {"CContains": s in ct, "CStarts": ct.startswith(s), "CEnds": ct.endswith(s), "CEq": ct == s}[op]
         elif op == "CNot":
             r = not parse()
         else:
@@ -166,17 +169,31 @@ def eval_readback(pr, code, ct):
 # which decoder family a declared media type calls for (only the media types the generator of cases uses)
 DECODER_OF_CT = {"application/json": "json", "application/problem+json": "json", "application/vnd.api+json": "json",
                  "application/xml": "xml", "text/plain": "text", "text/html": "text", "text/csv": "text",
-                 "application/octet-stream": "bytes", "image/png": "bytes", "text/event-stream": "stream"}
+                 "application/octet-stream": "bytes", "image/png": "bytes", "text/event-stream": "stream", "application/atom+xml": "xml"}
 
 
-def decoder_ok(payload, ct, schema):
-    want = DECODER_OF_CT.get(ct)
+def essence(ct):
+    """media type without parameters, lower case"""
+    return ct.split(";")[0].strip().lower() if isinstance(ct, str) else ct
+
+
+def key_is_success(key):
+    return key == "2XX" or (key.isdigit() and 200 <= int(key) <= 299)
+
+
+def decoder_ok(payload, ct, schema, key=None):
+    want = DECODER_OF_CT.get(essence(ct))
     if want is None or payload is None or schema is None:
         return True
     fam = payload.split(":")[0]
     if want == "text":
         return fam in ("text", "text_parse") or (fam == "json" and "$ref" in schema)
     if want == "bytes":
+        if "$ref" in schema and key is not None:
+            # a binary media type whose schema is a structured type: raw bytes for success statuses (a download),
+            # the declared schema otherwise (an error document)
+            # (which 2xx tokens count as success is the generator's table; the oracle only insists on the non-2xx side)
+            return fam in ("bytes", "json") if key_is_success(key) else fam == "json"
         return fam in ("bytes", "json")
     return fam == want
 
@@ -249,7 +266,8 @@ def run_cases(res, cases, model_exe):
     known_hits = set()
     n_eval = 0
     cts = [None, "application/json", "text/plain", "application/xml", "image/png", "text/event-stream",
-           "application/problem+json", "application/octet-stream"]
+           "application/problem+json", "application/octet-stream",
+           "application/json; charset=utf-8", "application/problem+json; charset=utf-8", "text/plain; charset=UTF-8"]
     for i, (case, (rc, txt, _), rb) in enumerate(zip(cases, outs, rbs)):
         if rc != 0 or "error" in rb or not rb.get("parse_response") or "error" in rb["parse_response"][0]:
             disagreements.append((i, "generator/readback failure", f"rc={rc} {txt[-300:]} {json.dumps(rb)[:300]}"))
@@ -302,11 +320,24 @@ def run_cases(res, cases, model_exe):
                 if got != exp:
                     bad = (i, code, ct, got, vk.get(got, "?"), chain + [exp])
                     break
+                # independent of the emitted content checks: a response whose media type (parameters aside) is one
+                # DECLARED for the first applicable key must come back as a variant of that key
+                k0 = chain[0]
+                if k0:
+                    decl0 = dict(next((c for k, c in case if k == k0), []))
+                    if essence(ct) in decl0 and vk.get(got, "?") != k0:
+                        if decl0[essence(ct)] is None and any(v is not None for v in decl0.values()):
+                            # declared without a schema next to media types that have one: no arm is emitted for it
+                            known_hits.add("schemaless-media-type-falls-through")
+                            continue
+                        bad = (i, code, ct, got, vk.get(got, "?"), [f"a variant of {k0}: {essence(ct)} is declared for it"])
+                        break
                 # payload decoder: when the response carries one of the media types declared for the chosen key
                 gcase = eval_readback_case(pr, code, ct)
                 src = vk.get(got, "?")
                 decl = dict(next((c for k, c in case if k == src), []))
-                if ct in decl and not decoder_ok(gcase["payload"], ct, decl[ct]):
+                ect = essence(ct)
+                if ect in decl and not decoder_ok(gcase["payload"], ect, decl[ect], src):
                     if src == "default" and len(decl) > 1:
                         known_hits.add("default-multi-media-no-dispatch")
                         continue
